@@ -1,6 +1,7 @@
 import Flowjaxv.Proofs.ArrTheory
 import Flowjaxv.Proofs.ArrGen
 import Flowjaxv.Proofs.Leaves
+import Flowjaxv.Proofs.Flows
 /-!
 # C08 — combinators mean what their definitions say, for every shape and axis
 
@@ -690,5 +691,72 @@ theorem gen_eval_instance :
     ∧ (stk.transform ⟨[3, 2], [1, 2, 3, 4, 5, 6]⟩ ()).shape = [3, 2]
     ∧ (stk.inverse_and_log_det ⟨[3, 2], [11, 22, 13, 24, 15, 26]⟩ ()).2 = 12
     ∧ (par.transform ⟨[4], [1, 2, 3, 4]⟩ ()).data = [1, 12, 3, 14] := by decide
+
+/-! ## premade flows: the `Scan` inside every factory equals the `Chain` of its unstacked layers
+
+`Flows.scanOf`, `Flows.filterVmap`, `Flows.jrSplitN` are the names the GENERATED factory bodies (`Gen/Flows.lean`) use for
+`Scan(...)`, `eqx.filter_vmap(make_layer)(...)`, `jr.split(key, n)`.  The layers are HETEROGENEOUS (layer `i` is made from
+its own key `key i`: its own parameters and its own permutation).  That the real `Scan` over the stacked parameters
+computes this chain is checked on real factory-built flows by `tools/props/flows.py` (`fj.unstack_scan`). -/
+section PremadeFlows
+open Flows FlowsPf
+
+/-- **`scan_eq_chain_of_unstacked`** — for any layer constructor and any per-layer keys:
+`Scan(filter_vmap(make_layer)(split(key, n)))` is the generated `Chain` of `[make_layer(key 0), …, make_layer(key (n-1))]` -/
+theorem scan_eq_chain_of_unstacked {X C κ : Type} (makeLayer : κ → Bij X C ℝ) (key : ℕ → κ) (n : ℕ) :
+    Flows.scanOf (Flows.filterVmap makeLayer (Flows.jrSplitN key n))
+      = (Chain.mk ((List.range n).map fun i => makeLayer (key i))).toBij := by
+  rw [FlowsPf.layers_eq_map]; rfl
+
+/-- … instantiated at the generated coupling / MAF / planar / BNAF factories, `invert = false`; `invert = true` wraps the
+same chain in the generated `Invert` -/
+theorem coupling_flow_eq_chain (tf : List ℝ → Bij ℝ Unit ℝ) (dim : ℕ) (key : ℕ → (List ℝ → List ℝ) × List ℕ) (n : ℕ) :
+    couplingFlowBij tf dim key n false
+        = (Chain.mk ((List.range n).map fun i => coupling_flow.make_layer tf dim (key i))).toBij ∧
+    couplingFlowBij tf dim key n true
+        = (Invert.mk (Chain.mk ((List.range n).map fun i => coupling_flow.make_layer tf dim (key i))).toBij).toBij := by
+  rw [FlowsPf.couplingFlowBij_eq, FlowsPf.couplingFlowBij_eq, FlowsPf.layers_eq_map]
+  exact ⟨rfl, rfl⟩
+
+theorem maf_flow_eq_chain (tf : List ℝ → Bij ℝ Unit ℝ) (dim : ℕ) (key : ℕ → Masks.MafNet ℝ × List ℕ) (n : ℕ) :
+    mafFlowBij tf dim key n false
+        = (Chain.mk ((List.range n).map fun i => masked_autoregressive_flow.make_layer tf dim (key i))).toBij ∧
+    mafFlowBij tf dim key n true
+        = (Invert.mk (Chain.mk ((List.range n).map fun i => masked_autoregressive_flow.make_layer tf dim (key i))).toBij).toBij := by
+  rw [FlowsPf.mafFlowBij_eq, FlowsPf.mafFlowBij_eq, FlowsPf.layers_eq_map]
+  exact ⟨rfl, rfl⟩
+
+theorem planar_flow_eq_chain (dim : ℕ) (s : ℝ) (key : ℕ → (List ℝ → List ℝ) × List ℕ) (n : ℕ) :
+    planarFlowBij dim s key n false
+        = (Chain.mk ((List.range n).map fun i => planar_flow.make_layer dim s (key i))).toBij ∧
+    planarFlowBij dim s key n true
+        = (Invert.mk (Chain.mk ((List.range n).map fun i => planar_flow.make_layer dim s (key i))).toBij).toBij := by
+  rw [FlowsPf.planarFlowBij_eq, FlowsPf.planarFlowBij_eq, FlowsPf.layers_eq_map]
+  exact ⟨rfl, rfl⟩
+
+/-- each layer is `Chain([bijection, permutation]).merge_chains()`; the chain of such layers has the same four methods
+as the FLAT chain `[b₀, p₀, b₁, p₁, …]` (flattening never changes a method: `merge_chains_step`) -/
+theorem flow_layers_flat {X C : Type} (ls : List (Bij X C ℝ × Bij X C ℝ)) :
+    (Chain.mk (ls.map fun l => Flows.mergeChains (Flows.chainOf [l.1, l.2]))).toBij.Equiv
+      (Chain.mk (ls.flatMap fun l => [l.1, l.2])).toBij := FlowsPf.chain_of_pairs_flat ls
+
+/-- the three branches of the generated `_add_default_permute`: nothing for `dim = 1`, `Flip` for `dim = 2`, otherwise a
+`Permute` with the key's permutation — as chains -/
+theorem add_default_permute_branches (b : VBij ℝ) (key : List ℕ) :
+    add_default_permute b 1 key = b ∧
+    add_default_permute b 2 key = (Chain.mk [b, Flows.flipOf 2]).toBij ∧
+    (∀ d, d ≠ 1 → d ≠ 2 → key.Perm (List.range d) →
+      add_default_permute b d key = (Chain.mk [b, Flows.permuteOf key]).toBij) :=
+  ⟨FlowsPf.add_default_permute_one b key, FlowsPf.add_default_permute_two b key,
+   fun d h1 h2 hk => by rw [FlowsPf.add_default_permute_other b h1 h2, FlowsPf.jrPermutation_arange hk]⟩
+
+/-- non-vacuity: the 2-layer coupling flow of `C01.coupling_flow_instance` is the chain of its two (different) layers -/
+theorem coupling_flow_chain_instance :
+    couplingFlowBij defaultTransformer 3 couplingKeys 2 false
+      = (Chain.mk [coupling_flow.make_layer defaultTransformer 3 (couplingKeys 0),
+                   coupling_flow.make_layer defaultTransformer 3 (couplingKeys 1)]).toBij :=
+  (coupling_flow_eq_chain defaultTransformer 3 couplingKeys 2).1
+
+end PremadeFlows
 
 end C08
